@@ -122,9 +122,16 @@ def check_props(prop_file, timeout=900):
             assumptions[n] = sorted(set(a for a in ax if a != "Axioms"))
     return dict(theorems=thms, assumptions=assumptions, log=out, ok=(rc == 0), fail_line=fail_line)
 
+def _big_stack():
+    """the extracted model recurses structurally (non tail-recursive list functions): give it the whole stack allowance"""
+    import resource
+    soft, hard = resource.getrlimit(resource.RLIMIT_STACK)
+    try: resource.setrlimit(resource.RLIMIT_STACK, (hard, hard))
+    except (ValueError, OSError): pass
+
 def run_model(case_lines):
     p = subprocess.run([os.path.join(EXTRACT, "omm")], input=("\n".join(case_lines) + "\n").encode(),
-                       stdout=subprocess.PIPE, stderr=subprocess.PIPE)
+                       stdout=subprocess.PIPE, stderr=subprocess.PIPE, preexec_fn=_big_stack)
     if p.returncode != 0:
         raise RuntimeError("model driver failed: " + p.stderr.decode()[-2000:])
     out = p.stdout.decode().split("\n")
